@@ -27,7 +27,7 @@ def encode(cs, container, rng=None, layout=None):
             unit.append(off)
         unit = [len(head)] + unit if recs else []
     if layout is None:
-        layout = rng.choice(["single", "unit", "random", "midrecord", "stored", "empties", "double_eof"]) if rng else "single"
+        layout = rng.choice(["single", "unit", "random", "midrecord", "stored", "empties", "double_eof", "tinyfirst", "odd_header"]) if rng else "single"
     return vcfgen.layouts(data, unit, rng, [layout])[layout]
 
 
@@ -52,7 +52,7 @@ def l1_request(cs, smap, project=None, fresh=False, records=None):
             "records": records if records is not None else codes(cs), "fresh": fresh}
 
 
-def l2_request(data, smap, project=None, threads=1, mode="scs", chunks=None, rest=None, fail_at=None, fail_kind=None):
+def l2_request(data, smap, project=None, threads=1, mode="scs", chunks=None, rest=None, fail_at=None, fail_kind=None, fail_mode=None):
     r = {"op": "create", "data": data.hex(), "map": map_json(smap),
          "project": None if project is None else [m + 1 for m in project], "threads": threads, "mode": mode}
     if chunks is not None:
@@ -62,6 +62,8 @@ def l2_request(data, smap, project=None, threads=1, mode="scs", chunks=None, res
     if fail_at is not None:
         r["fail_at"] = fail_at
         r["fail_kind"] = fail_kind or "Other"
+        if fail_mode:
+            r["fail_mode"] = fail_mode
     return r
 
 
